@@ -122,6 +122,17 @@ PROPS = {
         "components": COMPONENTS_CMD,
         "assumptions": ASSUME_COMMON + ["computation costs zero virtual time, so 'bounded time after the delay' is checked as equality on the virtual clock"],
     },
+    "C19": {
+        "level": "exploration",
+        "rule": "library level: the real NewLiveRequestGenerator (interval 1ms..1m) over a simulated delegate whose every pass is a fresh seeded permutation of 0..120 targets sent through an unbuffered/buffered channel with optional latency, some passes (also the first) failing to start, a consumer that pauses, and a cancel at a drawn virtual instant (also inside a pass / before the first interval); command level: `sx arp --live d` (subnets up to /26, exclusions, NIC stalls, ARP responders, unsolicited frames) with Ctrl-C at a virtual instant; oracle over the recorded history: the stream splits into consecutive passes each equal to the delegate's pass (every target once, in order), pass i+1 is requested in [end_i + d, max(end_i, last consumption_i) + d], after a pass that failed to start a new attempt follows within 2d, passes keep coming until the cancel (bounded liveness on the virtual clock), the stream / command ends at the cancel instant, no panic, no busy loop (<= 60000 steps without time advancing); command level additionally: frames on the wire split into complete passes, hosts are printed once; distinct = (sizes, interval, failing passes, cancel instant, trace hash)",
+        "suites": [{"name": "C19-live", "quick": 6000, "thorough": 150000, "budget_quick": 100, "budget_thorough": 1200},
+                   {"name": "C19-livecmd", "quick": 1500, "thorough": 30000, "budget_quick": 100, "budget_thorough": 1200}],
+        "expect_probes": ["three-passes", "cancel-inside-pass"],
+        "components": {"real": ["pkg/scan/request.go liveRequestGenerator (instrumented)", "command level: the whole `sx arp --live` command incl. unique logger"],
+                       "stub": ["delegate RequestGenerator and consumer (library level)", "scheduler, clock, wire, Ctrl-C"]},
+        "assumptions": ASSUME_COMMON + ["computation costs zero virtual time, so interval bounds are exact on the virtual clock",
+                                        "at command level the spacing bounds are checked in stall-free runs only (with a stalling NIC the last frame of a pass leaves later than the pass ended for the generator)"],
+    },
     "C20": {
         "level": "fault_enumeration",
         "rule": "cases = read-outcome sequences over {F frame, P frame+processor error, A EAGAIN, T timeout net.Error, R ECONNRESET, U unknown, W wrapped temporary, X EOF/EBADF/closed-file}; "
@@ -146,6 +157,8 @@ for _p in PENDING:
         NOT_APPLICABLE.append({"property_id": _p, "reason": "check under construction in this session - not claimed yet (planned in DESIGN.md section 4)"})
 
 MANIFEST_TEXT = {
+    "C19": {"text": "The real live request generator runs under the seeded scheduler between a simulated delegate (fresh permutation per pass, passes that fail to start) and a pausing consumer, with the cancel at a drawn instant; the recorded request history is checked for pass structure, spacing (exact on the virtual clock), bounded liveness and termination. `sx arp --live` is checked the same way on the simulated wire.",
+            "note": "Sampled sizes, intervals, failure positions and cancel instants."},
     "C13": {"text": "Full commands read generated target files with bad lines at drawn positions under every stack of optional stages (exclusion filter, ARP-cache resolver with/without gateway MAC, VPN, application scan). The frames / dials and the error records (at the zap core) are compared with a line-by-line reference model that allows stopping at a bad line or continuing as if it were absent.",
             "note": "Sampled files (1..15 lines, 19 kinds of bad line); error causes classified by keywords."},
     "C07": {"text": "The real packet pipeline stages run under the seeded scheduler between simulated request generator, filler, writer and reader; frames carry ids so that the multiset on the wire is compared byte for byte with independently built frames, every injected failure must appear exactly once on the error stream, and completion may only be observed when no write is in flight. Buffer-pool reuse is a seeded decision, so premature recycling shows as an altered or wrong frame. The same oracles run on full commands with a stalling / failing NIC.",
